@@ -343,7 +343,7 @@ def t19():
     popped = d.pop('b')
     return (sorted(s | t), sorted(s & t), sorted(s - t), 2 in s, list(d), list(d.items()), popped, len(d), d.get('zz', 7),
             '%d-%s-%5.2f' % (3, 'x', 2.5), '{}/{k}'.format(1, k=2), 'abc'.upper()[::-1], ','.join(str(i) for i in range(3)),
-            'a b'.split(), 'x'.startswith('x'), None is None, () is not None)
+            'a b'.split(), 'x'.startswith('x'), None is None, d is not None)
 
 
 def chain(n):
@@ -413,3 +413,36 @@ def t22():
     cond = [i for i in range(6) if i % 2 if i > 1]
     nested = [(i, j) for i in range(2) for j in range(i + 1)]
     return r, acc, acc2, vals, cond, nested, (lambda *a, **k: (a, k))(1, b=2)
+
+
+class Alias(object):
+    scale = 3
+
+    def _mul(self, k):
+        return k * self.scale
+
+    def _add(self, k):
+        return k + self.scale
+    times, plus = _mul, _add
+    double_scale = scale * 2
+    table = {'m': _mul}
+
+
+def marker(fn):
+    fn.tagged = True
+    return fn
+
+
+@marker
+def tagged_fn():
+    return 1
+
+
+def plain_fn():
+    return 2
+
+
+def t23():
+    a = Alias()
+    return (a.times(2), a.plus(2), Alias.double_scale, a.table['m'](a, 5), getattr(tagged_fn, 'tagged', False),
+            getattr(plain_fn, 'tagged', False), hasattr(plain_fn, 'tagged'), tagged_fn(), plain_fn.__name__)
